@@ -14,7 +14,8 @@ LEVEL = ("Static agreement of the three element loops of every SIMD kernel (impl
          "summation-order error is not decided."
          " Added: the backend keeps no state between kernel calls (K9); a Math default inherited by CpuMath does no floating-point arithmetic of its own (K10); no unsafe code / inline assembly in math::* (K11)."
          " Added (round 5): outside the scale-update kernels no min / max / clamp / abs on an f64 in the CPU backend and math::util (K12)."
-         " Added (round 6): scalars cross the backend boundary unmodified (K13); data-movement methods do no arithmetic and delegating methods do nothing but call their kernel (K14).")
+         " Added (round 6): scalars cross the backend boundary unmodified (K13); data-movement methods do no arithmetic and delegating methods do nothing but call their kernel (K14)."
+         " Added (round 7): a method that borrows the low-rank scratch column sizes it in the same call from its own operands, so no length travels between calls (K9 sized-here clause).")
 EXPLANATION = ("HIR of each with_simd body: provenance of slice pieces through S::as_simd_f64s / pulp::as_arrays, operand lists of the izip! loops, symbolic "
                "evaluation of the closure bodies (SIMD intrinsics translated to +,-,*) with per-lane renaming, comparison of normal forms.")
 TRUSTED = ["rustc nightly HIR (macro-expanded izip!)", "nutsfacts extractor", "rules/kernel.py, rules/c17.py",
